@@ -313,7 +313,30 @@ STUBS = [
     "_send_chunk -> recorder (STEP) / in-memory wire carrying chunk objects (BMC); the wire format is C08's subject",
 ]
 
+def _mixed_jobs(tier):
+    from .c06_partial import _bmc_jobs
+
+    jobs = _bmc_jobs(tier)
+    return jobs[:4] + jobs[-1:] if tier == "quick" else jobs
+
+
+def _mixed(ctx, **params):
+    from .c06_partial import h_bmc
+
+    return h_bmc(ctx, **params)
+
+
 HARNESSES = {
+    "mixed-pr": Harness(
+        "mixed-pr",
+        _mixed,
+        _mixed_jobs,
+        style="BMC",
+        bounds="reliable traffic sharing the association with a partially reliable channel (the C06 back-to-back BMC: <=3 messages of <=2 fragments, 3 (quick) / 4 solver-chosen loss/timer events, then a loss-free suffix): everything sent on the reliable channel is delivered",
+        encoded=["aiortc.rtcsctptransport:RTCSctpTransport._maybe_abandon", "aiortc.rtcsctptransport:RTCSctpTransport._update_advanced_peer_ack_point", "aiortc.rtcsctptransport:RTCSctpTransport._receive_forward_tsn_chunk"],
+        twin="suffix-done",
+        opts={"samples": 1},
+    ),
     "step-sack": Harness("step-sack", h_step_sack, _step_jobs("sack"), style="STEP", bounds="sent queue 1..3 (quick) / 1..4, outbound queue 0..1 / 0..2; per chunk symbolic acked/retransmit/misses 0..2/book size 1..1200/sent count; cwnd, ssthresh, partial_bytes_acked, fast-recovery state, TSN origin symbolic; SACK with symbolic cumulative point and <=2 symbolic gap blocks", encoded=ENC, stubs=STUBS, twin="sack-processed", opts={"samples": 1}),
     "step-t3": Harness("step-t3", h_step_t3, _step_jobs("t3"), style="STEP", bounds="same state space; one T3 expiry followed by the transmit it schedules", encoded=ENC, stubs=STUBS, twin="t3-processed", opts={"samples": 1}),
     "step-send": Harness("step-send", h_step_send, _step_jobs("send"), style="STEP", bounds="same state space; one _send of a 1- or 2-fragment (from the empty state also 5-fragment) message", encoded=ENC, stubs=STUBS, twin="send-processed", opts={"samples": 1}),
